@@ -76,7 +76,7 @@ def cases(spec, ctx):
             yield case
         elif kind == "rule":
             case = c11.gen_case(rng)
-            while case.get("subquery_head"):
+            while case.get("subquery_head") or case.get("concat_head"):
                 case = c11.gen_case(rng)
             case["world"] = D.random_world(rng, np_=(1, 4), nq=(1, 4), falsy=True)
             case["cond"] = C.gen_cond(rng, case["kinds"], rng.choice([0, 1, 2]), {"falsy": True})
